@@ -91,6 +91,7 @@ type Sched struct {
 	Strict bool // panic on Yield from unregistered goroutine
 
 	randSeed uint64
+	seq      uint64
 
 	OnQuiesce func() // driver hook, called after every synctest.Wait(); must not block or yield
 }
